@@ -25,6 +25,7 @@ import json as _json, os as _os
 _HERE = _os.path.dirname(_os.path.abspath(__file__))
 _TABLE_MAP = _json.load(open(_os.path.join(_HERE, "table_map.json")))
 _FACT_DIR = _os.path.join(_os.path.dirname(_HERE), "lean", "DecProofs", "TableFacts")
+_BIN = {"BID_OUTERTABLE_SIG", "BID_OUTERTABLE_EXP", "BID_INNERTABLE_SIG", "BID_INNERTABLE_EXP", "BID_PACKED_10000_ZEROS", "BID_RECIPROCALS10_64", "BID_SHORT_RECIP_SCALE"}
 _MECH = {"BID_POWER10_INDEX_BINEXP_128", "BID_TEN2MK128", "BID_SHIFTRIGHT128", "BID_RECIPROCALS10_128", "BID_RECIP_SCALE", "BID_KX64", "BID_KX128", "BID_KX192", "BID_KX256"}
 
 def tables_for(pid):
@@ -35,10 +36,12 @@ def tables_for(pid):
     for t in ts:
         if _os.path.exists(_os.path.join(_FACT_DIR, "F_%s.lean" % t)):
             mods.append("DecProofs.TableFacts.F_%s" % t)
-        elif t not in _MECH:
+        elif t not in _MECH and t not in _BIN:
             unverified.append(t)
     if any(t in _MECH for t in ts):
         mods.append("DecProofs.TableFacts.Mechanisms")
+    if any(t in _BIN for t in ts):
+        mods.append("DecProofs.TableFacts.BinTables")
     if any(t in ("BID_NR_DIGITS", "BID_ESTIMATE_DECIMAL_DIGITS", "BID_POWER10_INDEX_BINEXP_128") for t in ts):
         mods.append("DecProofs.TableFacts.NrDigits")
     return mods, unverified
@@ -49,10 +52,10 @@ def P(families, modules, quick=1000000, thorough=20000000, tables=None, static=N
             "assumptions": assumptions or []}
 
 PROPS = {
-    "C01": P(["C01", "SQRT"], ["DecProofs.Properties.C01", "DecProofs.Core.RoundInt", "DecProofs.Core.Digits", "DecProofs.Core.Finish", "DecProofs.Core.FinishUnique", "DecProofs.Properties.C01Q"], quick=1200000),
+    "C01": P(["C01", "SQRT"], ["DecProofs.Properties.C01", "DecProofs.Core.RoundInt", "DecProofs.Core.Digits", "DecProofs.Core.Finish", "DecProofs.Core.FinishUnique", "DecProofs.Properties.C01Q", "DecProofs.Properties.C01Strict"], quick=1200000),
     "C02": P(["C02"], ["DecProofs.Properties.C02", "DecProofs.Core.Finish", "DecProofs.Core.FinishUnique", "DecProofs.Properties.C02Q"], quick=1200000),
     "C03": P(["C03"], ["DecProofs.Properties.C03", "DecProofs.Core.Cmp", "DecProofs.Properties.C03Order"]),
-    "C04": P(["C04"], ["DecProofs.Properties.C04", "DecProofs.Core.DigitStr", "DecProofs.Properties.C04Grammar", "DecProofs.Core.Finish", "DecProofs.Properties.C04Q"], quick=1200000),
+    "C04": P(["C04"], ["DecProofs.Properties.C04", "DecProofs.Core.DigitStr", "DecProofs.Properties.C04Grammar", "DecProofs.Core.Finish", "DecProofs.Properties.C04Q", "DecProofs.Properties.C04Scan"], quick=1200000),
     "C05": P(["C05"], ["DecProofs.Properties.C05", "DecProofs.Core.DigitStr", "DecProofs.Properties.C05RoundTrip"]),
     "C06": P(["C06"], ["DecProofs.Properties.C06", "DecProofs.Core.RoundInt", "DecProofs.Core.RoundQ", "DecProofs.Properties.C06Q"]),
     "C07": P(["C07"], ["DecProofs.Properties.C07", "DecProofs.Core.Finish", "DecProofs.Properties.C07Q"]),
@@ -60,10 +63,10 @@ PROPS = {
     "C09": P(["C09"], ["DecProofs.Properties.C09", "DecProofs.Core.RoundInt", "DecProofs.Core.RoundQ", "DecProofs.Properties.C09Q"]),
     "C10": P(["C10"], ["DecProofs.Properties.C10", "DecProofs.Properties.C10Bound"]),
     "C11": P(["C11"], ["DecProofs.Properties.C11", "DecProofs.Core.Finish", "DecProofs.Properties.C11Q"]),
-    "C12": P(["C12"], ["DecProofs.Properties.C12"]),
+    "C12": P(["C12"], ["DecProofs.Properties.C12", "DecProofs.Properties.C12Ops"]),
     "C13": P(["C13"], ["DecProofs.Properties.C13", "DecProofs.Core.Codec", "DecProofs.Properties.C13Codec"]),
     "C14": P(["C14", "C14T"], ["DecProofs.Properties.C14", "DecProofs.Properties.JudgeSound", "DecProofs.Properties.C14Scopes"], static=["DecProofs.Static.FlagAccess"]),
-    "C15": P(["C15"], ["DecProofs.Properties.C15", "DecProofs.Properties.JudgeSound"], quick=1200000, static=["DecProofs.Static.Inventory"],
+    "C15": P(["C15"], ["DecProofs.Properties.C15", "DecProofs.Properties.JudgeSound", "DecProofs.Properties.C15Total", "DecProofs.Properties.C04Scan"], quick=1200000, static=["DecProofs.Static.Inventory"],
              extra_corpus=["C01", "C02", "C04"]),
     "C16": P(["C16"], ["DecProofs.Properties.C16", "DecProofs.Core.Cmp", "DecProofs.Properties.C16Order"]),
     "C17": P(["C17"], ["DecProofs.Properties.C17", "DecProofs.Core.Digits", "DecProofs.Properties.C17Adjacent"]),
